@@ -46,6 +46,7 @@ def run(F, R):
     v2_v3(F, R, M, roles, hdr)
     v4_credit(F, R)
     v7_credit_from_every_packet(F, R)
+    v10_body_bounded(F, R)
     # V8: a packet is attributed to the connection whose full addressing it carries (shared with C18.X5): otherwise the
     # bytes and the credit of one stream are applied to another
     from .C18 import x5_predicates
@@ -55,6 +56,7 @@ def run(F, R):
     queue_modes_rule(F, R, M, 'V9', ['device::socket'])
     v5_fwd(F, R)
     v6_ring(F, R)
+    v6b_is_empty(F, R)
 
 
 def v1_layout(F, R):
@@ -460,6 +462,42 @@ def v7_credit_from_every_packet(F, R):
     R.count('credit_refresh_sites', n)
 
 
+def v10_body_bounded(F, R):
+    """The payload handed on for a received packet is exactly header.len bytes: the body slice is taken with a two-sided
+    range whose end is (header size + header length field), never "everything after the header" (the used length the device
+    reports may exceed header + len)."""
+    n = 0
+    for b in F.bodies.values():
+        if not F.handwritten(b) or 'device::socket' not in b['id'] or b['kind'] not in ('Fn', 'AssocFn'):
+            continue
+        sig = b.get('sig', '')
+        if 'VirtioVsockHdr' not in sig.split('->')[-1] or '[u8]' not in sig.split('->')[-1] or b['arg_count'] != 1:
+            continue
+        sg = supergraph(F, b['id'])
+        where = fn_site(F, b['id'])
+        try:
+            paths = [p for p in PathEnum(sg).run() if not p.panicked and err_variant(p.ret) == 'Ok']
+        except PathLimit as e:
+            R.abstain('V10', b['id'], str(e), where)
+            continue
+        n += 1
+        bad = None
+        for p in paths:
+            tup = p.ret[2][0]
+            body = tup[2][1] if tup[0] == 'agg' and len(tup[2]) > 1 else None
+            rngs = [x for x in subterms(body) if x[0] == 'agg' and x[1].startswith('core::ops::Range')] if body else []
+            two_sided = [x for x in rngs if x[1].startswith('core::ops::Range::')]
+            if not two_sided:
+                bad = 'the body is %s' % (fmt(body)[:100] if body else None)
+                continue
+            end = two_sided[0][2][1]
+            if not derives_from(end, lambda x: x[0] == 'call' and (x[2].endswith('::len') and 'Hdr' in x[2] or 'VirtioVsockHdr' in x[2]) or (x[0] in ('field', 'load', 'load0') and fmt(x).endswith('.len'))):
+                bad = 'the end of the body range (%s) does not come from the header\'s length field' % fmt(end)[:80]
+        R.check(bad is None and bool(paths), 'V10', '%s:body-is-header-len' % b['id'], where, 'body = buffer[header size .. header size + header.len]',
+                'received payload: %s; bytes past the payload length (padding / stale buffer contents) are delivered and counted against the credit' % bad)
+    R.count('body_parsers', n)
+
+
 def v5_fwd(F, R):
     ci = 'device::socket::vsock::ConnectionInfo'
     flds = roles_of_connection(F, ci)
@@ -584,6 +622,44 @@ def v6_ring(F, R):
         R.tables += rows
         R.check(bad is None, 'V6', '%s:index-arithmetic' % b['name'], where, 'copies follow modular ring indexing on %d rows (capacity <= 5)' % rows,
                 'ring buffer %s: %s' % (b['name'], bad))
+
+
+def v6b_is_empty(F, R):
+    """The receive ring buffer reports empty exactly when it holds no bytes (the connection manager closes a connection after a
+    peer shutdown once this is true)."""
+    rb = [n for n in F.adts if n.endswith('RingBuffer') and n.startswith('device::socket::')]
+    if not rb:
+        return
+    rb = rb[0]
+    usz = [f['name'] for f in F.adts[rb]['variants'][0]['fields'] if f['ty'] == 'usize']
+    for b in F.bodies.values():
+        if b.get('impl_adt') != rb or not F.handwritten(b) or b['kind'] != 'AssocFn' or b['arg_count'] != 1 or not b.get('sig', '').endswith('-> bool'):
+            continue
+        sg = supergraph(F, b['id'])
+        paths = [p for p in PathEnum(sg).run() if not p.panicked]
+        # which usize field is "used": the one the drain / add functions add the length to - take it from the sibling rule's roles
+        bad = None
+        rows = 0
+        for used in (0, 1, 5):
+            for other in (0, 3):
+                got = set()
+                for uf in usz:
+                    def leaf(t, uf=uf):
+                        if t[0] in ('load0', 'load') and t[1][2] and t[1][2][-1][0] == 'f':
+                            return used if t[1][2][-1][1] == uf else other
+                        raise Unfoldable(fmt(t)[:60])
+                    fo = Folder(leaf)
+                    try:
+                        hit = [p for p in paths if path_holds(fo, p)]
+                        got.add(fo.ev(hit[0].ret) if len(hit) == 1 else None)
+                    except Unfoldable:
+                        got.add(None)
+                rows += 1
+                # for the right choice of "used" field the answer is (used == 0); some field must give that for every row
+                if int(used == 0) not in got:
+                    bad = 'with %d bytes buffered the buffer reports empty=%s' % (used, sorted(got, key=str))
+        R.tables += rows
+        R.check(bad is None, 'V6', '%s:empty-iff-no-bytes' % b['id'], fn_site(F, b['id']), 'empty exactly when no bytes are buffered', 'ring buffer %s: %s' % (b['name'], bad))
 
 
 def ring_roles(paths, usz):
